@@ -12,6 +12,8 @@ Per trace the engine returns: outcome kind (return / panic / cut), return value,
 and provenance terms are all read off these.
 """
 import copy
+import os
+import sys
 import re
 
 from .facts import op_place
@@ -253,7 +255,7 @@ class Engine:
                     c = self.operand(t['cond'], fn, fid, s)
                     if t['kind'] == 'BoundsCheck' or t['kind'].startswith('Overflow'):
                         s.events.append(('assert', t['kind'], [self.purify(self.operand(x, fn, fid, s), s) for x in t['ops']],
-                                         (fn['path'], t['sp']['line'])))
+                                         (fn['path'], t['sp']['line']), t.get('opty')))
                     self.on_assert(t, fn, fid, s)
                     if is_c(c):
                         if bool(c[1]) == bool(t['expected']):
@@ -315,7 +317,13 @@ class Engine:
                             # "none of the listed variants" of an enum with one variant left IS that variant: `if let Some(x) = o … else`
                             # and `match o { None => .., Some(x) => .. }` record the same decision
                             ov = next(iter(dvs - rest))
-                        branches.append((ov, t['otherwise']))
+                        if dvs is not None and dvs <= rest and not os.environ.get('TSA_NO_PRUNE'):
+                            # every variant of the enum is listed or already excluded: the otherwise edge is infeasible wherever the match
+                            # lowering points it (tuple patterns route it to the catch-all arm instead of an unreachable block)
+                            if os.environ.get('TSA_DEBUG_PRUNE'):
+                                print('PRUNE', fn['path'][-40:], t['sp']['line'], show(atom)[:80], 'vals', vals, 'ex', sorted(ex), 'dvs', dvs, 'adt', self.discr_adt.get(ak), file=sys.stderr)
+                        else:
+                            branches.append((ov, t['otherwise']))
                     if is_bool and atom[:2] == ('term', 'Eq') and len(atom[2]) == 2:
                         a0_, a1_ = atom[2]
                         if is_c(a0_):
@@ -865,7 +873,7 @@ class Engine:
         target = None
         if callee in self.p.fns:
             target = callee
-        if target and depth < self.inline_depth and not any(o.search(callee) for o in self.opaque) and \
+        if target and (depth < self.inline_depth or (self.inline_depth > 0 and not os.environ.get('TSA_NO_LEAF') and self._is_conversion_leaf(target))) and not any(o.search(callee) for o in self.opaque) and \
                 (self.inline_filter is None or self.inline_filter(callee)):
             nums = [int(g) for g in t.get('gargs', ()) if g.isdigit()]
             if len(nums) == 1:
@@ -880,6 +888,18 @@ class Engine:
                     self._emit_outcome(fid, o)
             return conts if conts else None
         return [(self.opaque_call(callee, t, args, s), s)]
+
+    def _is_conversion_leaf(self, path):
+        """a local `From::from` / `Into::into` impl without calls or branches (newtype wrapping / unwrapping such as `usize::from(Sequence)`): inlined at any
+        depth, so that moving an expression into a helper does not turn `usize::from(x)` into an opaque call one level further down"""
+        c = getattr(self, '_conv_leaf', None)
+        if c is None:
+            c = self._conv_leaf = {}
+        if path not in c:
+            f = self.p.fns[path]
+            c[path] = bool(re.search(r'( as core::convert::(From|Into)<[^>]*>>|<impl core::convert::(From|Into)<.*> for [\w:]+>)::(from|into)$', path)) and len(f['blocks']) <= 2 and \
+                all(b['term']['k'] in ('return', 'goto') for b in f['blocks'])
+        return c[path]
 
     def _emit_outcome(self, fid, o):
         if not hasattr(self, '_pending'):
